@@ -38,7 +38,7 @@ sys.path.insert(0, ROOT)
 from vplib import common as _common  # noqa: E402
 LIFE_BIN = os.environ.get("LIFE_BIN", os.path.join(_common.target_dir("life"), "release/harness-life"))
 REPLAY_BIN = os.environ.get("LIFE_REPLAY_BIN", os.path.join(ROOT, ".build/ocaml-life/replay"))
-TRACE_DIR = os.path.join(ROOT, ".build/life-traces")
+TRACE_DIR = os.path.join(ROOT, ".build/life-traces", str(os.getpid()))
 MIRI_DIR = os.environ.get("LIFE_MIRI_DIR", os.path.join(ROOT, "harness-life"))
 
 TIERS = {
